@@ -163,6 +163,24 @@ class FlatSet : private Compare {
   }
 #endif
 
+  FlatSet(const FlatSet &) = default;
+  FlatSet(FlatSet &&) = default;
+  FlatSet &operator=(FlatSet &&) = default;
+
+  FlatSet &operator=(const FlatSet &o) {
+    if (this != &o) {
+      try {
+        _sortedVector = o._sortedVector;
+      } catch (...) {
+        // the vector may hold a mix of old and new elements, which is not a valid (sorted, without duplicates) set
+        _sortedVector.clear();
+        throw;
+      }
+      compRef() = o.compRef();
+    }
+    return *this;
+  }
+
   FlatSet &operator=(std::initializer_list<value_type> list) {
     _sortedVector.clear();
     insert(list.begin(), list.end());
